@@ -347,7 +347,14 @@ def aggregate(prop, spec, tier, seed, results, harness_errors, wall, nworkers):
     for f in found:
         if f["known"]:
             known_hits.setdefault((f["rule"], f["key"]), [0, f["what"]])[0] += 1
-    if det_mis:
+    det_note = None
+    if det_mis and new:
+        # violations were found AND re-running the first worlds after other predecessors gave other
+        # histories: the code under test carries state from one run to the next inside one
+        # interpreter (a legitimate multi-run history).  The violations stand (each replay file is
+        # re-executed in a fresh process); the mismatch is reported with them.
+        det_note = "NOTE: runs are not independent of their predecessors in one interpreter (digest mismatch for seeds %s)" % det_mis[:6]
+    elif det_mis:
         harness_errors.append("determinism self-check mismatch for seeds %s" % det_mis[:10])
     level = spec["level"]
     rate = runs / wall * 3600 if wall > 0 else 0
@@ -390,12 +397,16 @@ def aggregate(prop, spec, tier, seed, results, harness_errors, wall, nworkers):
                                                         len(nsigs), len(new), sum(v[0] for v in known_hits.values())))
     for (rule, key), (n, what) in sorted(known_hits.items()):
         print("KNOWN-FINDING: property=%s %s [%s / %s] (seen %d times)" % (prop, what, rule, key, n))
-    if harness_errors:
+    if harness_errors and not (new and all("wall timeout" in h or "exit -" in h or "determinism" in h for h in harness_errors)):
         print("HARNESS-ERROR:")
         for h in harness_errors[:5]:
             print(h)
         return 2
     if new:
+        if det_note:
+            print(det_note)
+        for h in harness_errors[:3]:
+            print("NOTE: " + h.split("\n")[0][:200])
         seen = set()
         for f in new:
             fp = (f["rule"], f["key"])
